@@ -19,10 +19,13 @@ type Crasher struct {
 	buf     []Ev
 	images  []*image
 	// per data-directory file name: logical bytes written / known flushed, write end offsets
-	written   map[string]int64
-	synced    map[string]int64
-	wends     map[string][]int64
-	isOpen    map[string]bool // data-directory files the engine currently holds open
+	written map[string]int64
+	synced  map[string]int64
+	wends   map[string][]int64
+	isOpen  map[string]bool // data-directory files the engine currently holds open
+	// merge-directory files (rewritten data files, hint file, marker): bytes written / known flushed
+	mwritten  map[string]int64
+	msynced   map[string]int64
 	LabelCap  int
 	labelSeen map[string]int
 	// what to snapshot
@@ -35,19 +38,21 @@ type Crasher struct {
 }
 
 type image struct {
-	id      int
-	at      int // number of buffered events when it was taken
-	dir     string
-	written map[string]int64
-	synced  map[string]int64
-	wends   map[string][]int64
-	phys    map[string]int64
-	clean   bool
-	label   string
+	id                int
+	at                int // number of buffered events when it was taken
+	dir               string
+	written           map[string]int64
+	synced            map[string]int64
+	wends             map[string][]int64
+	phys              map[string]int64
+	clean             bool
+	label             string
+	mwritten, msynced map[string]int64
 }
 
 func NewCrasher(e *Eng, imgRoot string) *Crasher {
-	c := &Crasher{E: e, ImgRoot: imgRoot, written: map[string]int64{}, synced: map[string]int64{}, wends: map[string][]int64{}, isOpen: map[string]bool{}, labelSeen: map[string]int{}, MaxImages: 400, everyNth: 1}
+	c := &Crasher{E: e, ImgRoot: imgRoot, written: map[string]int64{}, synced: map[string]int64{}, wends: map[string][]int64{}, isOpen: map[string]bool{}, labelSeen: map[string]int{}, MaxImages: 400, everyNth: 1,
+		mwritten: map[string]int64{}, msynced: map[string]int64{}}
 	e.T.Buf = &c.buf
 	e.Split = true
 	os.MkdirAll(imgRoot, 0755)
@@ -100,6 +105,21 @@ func (c *Crasher) handle(ev IOEv) {
 	}
 	// completed call
 	n := ev.N
+	if ref.D == 1 {
+		// a file of the merge directory: what a power failure may take from it is what was written and not flushed
+		switch ev.Kind {
+		case "open":
+			var sz int64
+			if fi, err := os.Stat(ev.Path); err == nil {
+				sz = fi.Size()
+			}
+			c.mwritten[name], c.msynced[name] = sz, sz
+		case "write":
+			c.mwritten[name] += ev.N
+		case "sync":
+			c.msynced[name] = c.mwritten[name]
+		}
+	}
 	if inData {
 		switch ev.Kind {
 		case "close":
@@ -134,7 +154,7 @@ func (c *Crasher) snapshot(label string) {
 	c.Busy = true
 	defer func() { c.Busy = false }()
 	im := &image{id: len(c.images), at: len(c.buf), written: cp64(c.written), synced: cp64(c.synced), phys: map[string]int64{}, label: label, clean: true,
-		wends: map[string][]int64{}}
+		wends: map[string][]int64{}, mwritten: cp64(c.mwritten), msynced: cp64(c.msynced)}
 	for k, v := range c.wends {
 		im.wends[k] = append([]int64(nil), v...)
 	}
@@ -380,6 +400,35 @@ func (c *Crasher) Explore(thorough bool, powerLoss bool, contEvery int, stats ma
 						ref := RefOf(filepath.Join(c.E.Dir, name), c.E.Dir)
 						c.reopen(run, im, false, ref.ID, cut, contEvery > 0 && cnt%contEvery == 0, 1+int(cut)%c.E.U.N(), 1, &out)
 						stats["cut_images"]++
+					}
+				}
+			}
+			if powerLoss && c.WithMerge && c.E.Cfg.IO == "std" {
+				// power failure: a file of the merge directory keeps any length between what was flushed and what
+				// was written (the rewritten files and the hint file must be durable before the marker is)
+				mnames := []string{}
+				for name := range im.mwritten {
+					mnames = append(mnames, name)
+				}
+				sort.Strings(mnames)
+				for _, name := range mnames {
+					sy, wr := im.msynced[name], im.mwritten[name]
+					mp := filepath.Join(MergePath(im.dir), name)
+					if fi, err := os.Stat(mp); err != nil || fi.Size() != wr || wr <= sy {
+						continue // not part of this image, or nothing unflushed
+					}
+					for _, cut := range []int64{sy, sy + (wr-sy)/2, wr - 1} {
+						if cut < sy || cut >= wr {
+							continue
+						}
+						c.prepare(im, run, "", 0)
+						os.Truncate(filepath.Join(MergePath(run), name), cut)
+						cnt++
+						lbl := im.label
+						im.label = "mcut:" + name + "@" + lbl
+						c.reopen(run, im, false, -1, 0, contEvery > 0 && cnt%contEvery == 0, 1+int(cut)%c.E.U.N(), 1, &out)
+						im.label = lbl
+						stats["merge_cut_images"]++
 					}
 				}
 			}
